@@ -8,12 +8,16 @@ from common import RSX
 import vl
 
 NAMES = [
-    ("merge_and_add_assign_binwise", "merge_add_assign.binwise_equal_edges_kept_commutes", "<Histogram as Merge>::merge / AddAssign::add_assign"),
+    ("merge_and_add_assign_binwise", "merge_add_assign.binwise_equal_edges_kept", "<Histogram as Merge>::merge / AddAssign::add_assign"),
+    ("merge_total_adds_commutes", "merge.total_adds_commutes", "<Histogram as Merge>::merge"),
     ("merge_empty_identity", "merge.empty_identity_and_reset", "merge/reset"),
     ("merge_mismatch_panics", "merge.mismatch_panics", "<Histogram as Merge>::merge", True),
     ("add_assign_mismatch_panics", "add_assign.mismatch_panics", "AddAssign::add_assign", True),
     ("mul_assign_binwise", "mul_assign.binwise", "MulAssign::mul_assign"),
-    ("iter_and_views", "iter_views.items_bits", "iter/into_iter/widths/centers/normalized_bins/variances/variance"),
+    ("iter_items", "iter.items_len_order", "iter/into_iter/IterHistogram::next"),
+    ("views_widths_centers", "views.widths_centers_bits", "widths/centers"),
+    ("views_normalized", "views.normalized_bins_bits", "normalized_bins"),
+    ("views_variances", "views.variance_eq_variances_bits", "variance/variances/multinomial_variance"),
 ]
 
 PANICKY = ("assert", "assert_eq", "assert_ne", "panic", "unreachable", "todo", "unimplemented")
